@@ -156,6 +156,24 @@ func suiteC19(rng *Rng, thorough bool, s *Sink) {
 			viol("a record of another type was handed to the solar charger decoder")
 		}
 	}
+	// the names are the user's: a percent sign, quotes, non-ASCII text, a very long name - what is decrypted, decoded and
+	// reported for an advertisement does not depend on what the device or the instance is called
+	defer func() {
+		k := rng.Bytes(16)
+		plain := append([]byte{0x05, 0x00}, rng.Bytes(10)...)
+		for ni, names := range [][2]string{{"verif", "Solar roof 100%"}, {"100% ble", "Bat 80%DoD"}, {"%s%d%v", "%!d(MISSING)"}, {"ble \"main\"", "Zählerschrank – Süd"},
+			{"v", strings.Repeat("long name ", 40)}, {"", ""}, {"%", "%%"}, {"a%20b", "50%-70%"}} {
+			ble.VerifInstanceName, ble.VerifDeviceName = names[0], names[1]
+			for ti, typ := range []byte{0x01, 0x02, 0x01} {
+				raw := append([]byte{0x10, 0x00, 0x00, 0xA0, typ, byte(ni), byte(ti), k[0]}, encryptFor(k, uint16(ti)<<8|uint16(ni), plain)...)
+				if ti == 2 {
+					raw = raw[:6] // too short: ignored
+				}
+				emit("names", k, raw)
+			}
+		}
+		ble.VerifInstanceName, ble.VerifDeviceName = "verif", "dev"
+	}()
 	keys := [][]byte{make([]byte, 16), rng.Bytes(16), rng.Bytes(24), rng.Bytes(32)}
 	// payload lengths 0..64 x contents
 	for l := 0; l <= 64; l++ {
